@@ -6,6 +6,7 @@ use std::collections::BTreeMap;
 
 pub mod c18;
 pub mod c28;
+pub mod c30;
 pub mod c31;
 pub mod c33;
 
@@ -93,6 +94,7 @@ pub fn make(id: &str) -> Option<Box<dyn Check>> {
     match id {
         "C18" => Some(Box::new(c18::C18::new())),
         "C28" => Some(Box::new(c28::C28::new())),
+        "C30" => Some(Box::new(c30::C30::new())),
         "C31" => Some(Box::new(c31::C31::new())),
         "C33" => Some(Box::new(c33::C33::new())),
         _ => None,
